@@ -52,6 +52,10 @@ type Case struct {
 	Pin      *Pin   `json:"pin,omitempty"`
 	// Zero enables zero-length reads and Err read errors in the plans.
 	Zero bool `json:"zero_reads,omitempty"`
+	// MustFail: the text was cut at a position the generator knows to be
+	// inside a form: it must be reported incomplete or as a parse error by
+	// every reader, the whole-string read included.
+	MustFail bool `json:"must_fail,omitempty"`
 	// RFSAscii: cl:read-from-string only sees ASCII texts (known finding
 	// C02-read-from-string-bytes).
 	RFSAscii bool `json:"rfs_ascii,omitempty"`
@@ -102,6 +106,45 @@ var (
 	seps     = []string{" ", " ", " ", "\n", "  ", "\t", "\n  "}
 )
 
+// inside collects the cut positions p (the text is cut to text[:p]) that are
+// known, from the way the text was generated and not from any scanner of
+// ours, to lie inside a form: after the opening and before the closing
+// character of a list, vector, array, string or |symbol|, and right after a
+// quote-like prefix or a # dispatch. A text cut there "stops inside a form".
+type inside map[int]bool
+
+func (in inside) span(start, end int) { // start = index of the first, end = index of the last character
+	for p := start + 1; p <= end; p++ {
+		in[p] = true
+	}
+}
+
+func markAtom(in inside, a string, start int) {
+	if in == nil || len(a) == 0 {
+		return
+	}
+	end := start + len(a) - 1
+	switch {
+	case strings.HasPrefix(a, "#|"), a[0] == ';':
+		// a comment is not a form
+	case a[0] == '"', a[0] == '|':
+		in.span(start, end)
+	case a[len(a)-1] == ')':
+		in.span(start, end)
+	case a[0] == '\'', a[0] == '`':
+		in[start+1] = true
+	case strings.HasPrefix(a, "#'"):
+		in[start+1], in[start+2] = true, true
+	case strings.HasPrefix(a, "#\\"):
+		in[start+1], in[start+2] = true, true
+	case a[0] == '#' && a != "#*":
+		in[start+1] = true
+		if len(a) > 2 && strings.IndexByte("bBoOxX", a[1]) >= 0 {
+			in[start+2] = true
+		}
+	}
+}
+
 func genAtom(r *tape.Rand) string {
 	switch r.Intn(10) {
 	case 0, 1, 2:
@@ -117,8 +160,10 @@ func genAtom(r *tape.Rand) string {
 	}
 }
 
-func genForm(r *tape.Rand, depth int, b *strings.Builder) {
+func genForm(r *tape.Rand, depth int, b *strings.Builder, in inside) {
 	if depth > 0 && r.Pct(40) {
+		start := b.Len()
+		defer func() { in.span(start, b.Len()-1) }()
 		open := "("
 		switch r.Intn(8) {
 		case 0:
@@ -132,7 +177,7 @@ func genForm(r *tape.Rand, depth int, b *strings.Builder) {
 			if i > 0 || r.Pct(10) {
 				b.WriteString(seps[r.Intn(len(seps))])
 			}
-			genForm(r, depth-1, b)
+			genForm(r, depth-1, b, in)
 			if r.Pct(6) {
 				b.WriteString(" ")
 				b.WriteString(comments[r.Intn(len(comments))])
@@ -145,10 +190,12 @@ func genForm(r *tape.Rand, depth int, b *strings.Builder) {
 		b.WriteString(")")
 		return
 	}
-	b.WriteString(genAtom(r))
+	a := genAtom(r)
+	markAtom(in, a, b.Len())
+	b.WriteString(a)
 }
 
-func genText(r *tape.Rand) string {
+func genText(r *tape.Rand, in inside) string {
 	var b strings.Builder
 	n := 1 + r.Intn(6)
 	if r.Pct(15) {
@@ -161,7 +208,7 @@ func genText(r *tape.Rand) string {
 		if r.Pct(8) {
 			b.WriteString(comments[r.Intn(len(comments))])
 		}
-		genForm(r, 3, &b)
+		genForm(r, 3, &b, in)
 	}
 	if r.Pct(30) {
 		b.WriteString(seps[r.Intn(len(seps))])
@@ -178,9 +225,23 @@ func (e *engine) Generate(seed uint64, idx int, tier string, avoid []harness.Fin
 	if r.Pct(25) {
 		c.FloatFmt = []string{"single-float", "short-float", "long-float"}[r.Intn(3)]
 	}
-	text := genText(r)
+	in := inside{}
+	text := genText(r, in)
 	if r.Pct(25) && len(text) > 2 { // truncated: the producer died
-		text = text[:1+r.Intn(len(text)-1)]
+		cut := 1 + r.Intn(len(text)-1)
+		if r.Pct(40) && len(in) > 0 { // prefer a cut inside a form
+			k := r.Intn(len(text))
+			for p := 0; p < len(text); p++ {
+				if in[(k+p)%len(text)] {
+					cut = (k + p) % len(text)
+					break
+				}
+			}
+		}
+		if cut > 0 && cut < len(text) {
+			c.MustFail = in[cut]
+			text = text[:cut]
+		}
 	}
 	if tier == "thorough" && r.Pct(2) {
 		// realistic delivery: a file larger than the 64 KiB block, with the
@@ -773,6 +834,13 @@ func (e *engine) Execute(raw json.RawMessage) (vd harness.Verdict) {
 		return
 	}
 	vd.Probes["ref_"+refs["ReadStream"].kind]++
+	if c.MustFail {
+		vd.Probes["cut_inside_form"]++
+		if ref := refs["ReadStream"]; ref.kind == "objects" && c.Pin == nil {
+			vd.V = viol("truncation-accepted", "the text %q stops inside a form but the whole-string read silently returns %v", c.Show, ref.objs)
+			return
+		}
+	}
 	textHash := fnv.New64a()
 	_, _ = textHash.Write(c.Text)
 	th := textHash.Sum64()
